@@ -441,7 +441,9 @@ impl Gen {
                         let p = self.pred(w, 0);
                         (0, Op::FRetain { p, fuse: self.rng.below(len as u64 + 2) as usize })
                     }
-                    8 => (0, Op::FReplace { k: self.some_key(w, 0) }),
+                    8 => {
+                        if self.rng.chance(1, 2) { (0, Op::FReplace { k: self.some_key(w, 0) }) } else { (0, Op::FEntry { k: self.some_key(w, 0), kind: self.rng.below(5) as u8 }) }
+                    }
                     9 => {
                         let p = self.pred(w, 0);
                         (0, Op::FDrainFilter { p, fuse: self.rng.below(len as u64 + 2) as usize })
